@@ -25,19 +25,23 @@ CONSTANTS Names,        \* {"device", "attestation", "ui", "signer"}
           TweakChoice,  \* subset of {"plain", "tweaked"}: how an element may be honestly signed
           Shapes,       \* enabled non-canonical message shapes (see KeyOfShape)
           MaxShape,     \* how many elements may have a non-canonical message shape
-          ShapeWithCorr \* may the SAME element have a non-canonical shape and a corrupted link
+          ShapeWithCorr,\* may the SAME element have a non-canonical shape and a corrupted link
+          MaxOps,       \* histories: how many further operations follow on the SAME object (0 = none)
+          OpKinds,      \* enabled operation kinds, subset of {"validate", "passive", "clear", "addtarget", "addel"}
+          Origins       \* subset of {"loaded", "built"}: from a file / empty object filled step by step
 
 Ghost  == "ghost"        \* a name that is never an element
 Absent == "absent"
 
-VARIABLES targets, by, link, rootkey, used, swap, shape, spell,    \* Env
+VARIABLES targets, by, link, rootkey, used, swap, shape, spell, ops, gen, log,   \* Env
           phase, sub, ti, cur, visited, chain, certifier, result, steps   \* Sys
-envv == <<targets, by, link, rootkey, used, swap, shape, spell>>
+envv == <<targets, by, link, rootkey, used, swap, shape, spell, ops, gen, log>>
 sysv == <<phase, sub, ti, cur, visited, chain, certifier, result, steps>>
 vars == <<envv, sysv>>
 
 K(n) == "k_" \o n
-M(n) == "m_" \o n
+\* gen: the names whose element was put (again) by add_element: a re-issued element for the same key
+M(n) == IF n \in gen THEN "m_" \o n \o "_b" ELSE "m_" \o n
 T(n) == "t_" \o n
 SignerKey(s) == IF s = Root THEN "k_root" ELSE K(s)
 
@@ -96,9 +100,20 @@ TargetSeqs == UNION {[1..k -> Names \cup {Ghost}] : k \in 0..MaxTargets}
 \* same bytes (canonical or not: the harness renders them all, the behaviour must be the same);
 \* "refused" = some field of some element - on or off any target's path - is written in a way the loader
 \* refuses: the elements are built before any target is looked at, so nothing else is read.
-Init == /\ targets \in TargetSeqs /\ spell \in {"ok", "refused"}
+\* log (histories only): every decision and every operation in the order they happened, so that the
+\* harness can rebuild the object's content at each moment
+HistOn == MaxOps > 0
+E(k, n, a) == [k |-> k, n |-> n, a |-> a, tw |-> "", corr |-> "", partner |-> ""]
+Logged(e) == log' = IF HistOn THEN Append(log, e) ELSE log
+
+Init == /\ \/ /\ "loaded" \in Origins /\ targets \in TargetSeqs /\ spell \in {"ok", "refused"}
+              /\ phase = "parse"
+              /\ log = IF HistOn THEN [i \in 1..Len(targets) |-> E("target0", targets[i], "")] ELSE <<>>
+           \/ /\ "built" \in Origins /\ HistOn /\ targets = <<>> /\ spell = "ok"
+              /\ phase = "done" /\ log = <<E("origin", "", "built")>>       \* HSMCertificate(), nothing in it
         /\ by = (Ghost :> Absent) /\ link = <<>> /\ rootkey = "?" /\ used = 0 /\ swap = <<>> /\ shape = <<>>
-        /\ phase = "parse" /\ sub = "enter" /\ ti = 1 /\ cur = NoName /\ visited = {}
+        /\ ops = 0 /\ gen = {}
+        /\ sub = "enter" /\ ti = 1 /\ cur = NoName /\ visited = {}
         /\ chain = <<>> /\ certifier = Root /\ result = <<>> /\ steps = 0
 
 (***************************************************************************)
@@ -113,7 +128,8 @@ DecideBy == /\ NeedBy # NoName /\ NeedBy \notin DOMAIN by
             /\ \E p \in Names \cup {Root, Ghost, Absent} :
                  /\ (p = Absent) => ~(swap # <<>> /\ swap[2] = NeedBy)
                  /\ by' = (NeedBy :> p) @@ by
-            /\ UNCHANGED <<targets, link, rootkey, used, swap, shape, spell, sysv>>
+                 /\ Logged(E("by", NeedBy, p))
+            /\ UNCHANGED <<targets, link, rootkey, used, swap, shape, spell, ops, gen, sysv>>
 
 NeedLink == IF phase = "validate" /\ sub = "check" THEN cur ELSE NoName
 
@@ -135,27 +151,29 @@ DecideLink ==
     /\ (certifier = Root => rootkey # "?") /\ ShapeKnown
     /\ LET n == NeedLink
            L(s, tw, c, m) == (n :> [signer |-> s, tw |-> tw, corr |-> c, partner |-> m]) @@ link
+           Lg(s, tw, c, m) == Logged([k |-> "link", n |-> n, a |-> s, tw |-> tw, corr |-> c, partner |-> m])
        IN
        \E tw \in TwOf(n) :
          IF swap # <<>> /\ swap[2] = n
-         THEN /\ link' = L(by[n], tw, "swapped", swap[1])
+         THEN /\ link' = L(by[n], tw, "swapped", swap[1]) /\ Lg(by[n], tw, "swapped", swap[1])
               /\ UNCHANGED <<used, swap>>
-         ELSE \/ /\ link' = L(by[n], tw, "ok", NoName)
+         ELSE \/ /\ link' = L(by[n], tw, "ok", NoName) /\ Lg(by[n], tw, "ok", NoName)
                  /\ UNCHANGED <<used, swap>>
               \/ /\ used < MaxCorr
-                 /\ \E k \in LocalKinds(n, tw) : link' = L(by[n], tw, k, NoName)
+                 /\ \E k \in LocalKinds(n, tw) : link' = L(by[n], tw, k, NoName) /\ Lg(by[n], tw, k, NoName)
                  /\ used' = used + 1 /\ UNCHANGED swap
               \/ /\ used < MaxCorr /\ "reparent" \in CorrKinds
-                 /\ \E s \in (Names \cup {Root}) \ {by[n]} : link' = L(s, tw, "reparent", NoName)
+                 /\ \E s \in (Names \cup {Root}) \ {by[n]} :
+                      link' = L(s, tw, "reparent", NoName) /\ Lg(s, tw, "reparent", NoName)
                  /\ used' = used + 1 /\ UNCHANGED swap
               \/ /\ used < MaxCorr /\ "sigSwap" \in CorrKinds /\ swap = <<>>
                  /\ \E m \in Names \ {n} :
                       /\ m \notin DOMAIN link
                       /\ (m \in DOMAIN by => by[m] # Absent)
-                      /\ link' = L(by[n], tw, "sigSwap", m)
+                      /\ link' = L(by[n], tw, "sigSwap", m) /\ Lg(by[n], tw, "sigSwap", m)
                       /\ swap' = <<n, m>>
                  /\ used' = used + 1
-    /\ UNCHANGED <<targets, by, rootkey, shape, spell, sysv>>
+    /\ UNCHANGED <<targets, by, rootkey, shape, spell, ops, gen, sysv>>
 
 \* the message shape of an element, decided when the element is first used as a certifier (it has been
 \* checked itself by then).  Corruptions of the message are only combined with the canonical shape;
@@ -168,14 +186,16 @@ DecideShape ==
            free == /\ Shaped < MaxShape
                    /\ c \notin {"msgFlipKey", "msgFlipOther", "keySubst"}
                    /\ (ShapeWithCorr \/ c \in {"ok", "swapped"})
-       IN \E sh \in {"canon"} \cup (IF free THEN Shapes ELSE {}) : shape' = (n :> sh) @@ shape
-    /\ UNCHANGED <<targets, by, link, rootkey, used, swap, spell, sysv>>
+       IN \E sh \in {"canon"} \cup (IF free THEN Shapes ELSE {}) :
+            shape' = (n :> sh) @@ shape /\ Logged(E("shape", n, sh))
+    /\ UNCHANGED <<targets, by, link, rootkey, used, swap, spell, ops, gen, sysv>>
 
 DecideRoot == /\ phase = "validate" /\ sub = "check" /\ certifier = Root /\ rootkey = "?"
               /\ \/ rootkey' = "k_root" /\ UNCHANGED used
                  \/ /\ used < MaxCorr /\ "wrongRoot" \in CorrKinds
                     /\ rootkey' = "k_x" /\ used' = used + 1
-              /\ UNCHANGED <<targets, by, link, swap, shape, spell, sysv>>
+              /\ Logged(E("root", "", rootkey'))
+              /\ UNCHANGED <<targets, by, link, swap, shape, spell, ops, gen, sysv>>
 
 (***************************************************************************)
 (* Sys: _parse                                                             *)
@@ -233,7 +253,56 @@ VCheck == /\ phase = "validate" /\ sub = "check"
                   /\ UNCHANGED <<result, ti, sub>>
           /\ Tick /\ UNCHANGED <<envv, phase, visited>>
 
-EnvNext == DecideBy \/ DecideLink \/ DecideRoot \/ DecideShape
+(***************************************************************************)
+(* Env: histories.  After a validation, up to MaxOps further operations on *)
+(* the SAME object.  Every validate is a new run of the same program on    *)
+(* the object's CURRENT content and the root it is given: its verdicts     *)
+(* must be SpecVerdict of exactly that (Agree), whatever happened before.  *)
+(*   validate(r)   r = the right root or another one                       *)
+(*   passive       to_dict / save + load into a new object: no effect      *)
+(*   clear         clear_targets                                           *)
+(*   addtarget(t)  add_target of an element that has a path to the root    *)
+(*   addel(n, p)   add_element: a new element, or a re-issued one for the  *)
+(*                 same key replacing n - new message, parent, signature   *)
+(*                 and tweak, decided afresh when next read.  add_element  *)
+(*                 performs no sanity check, so the environment keeps      *)
+(*                 every target's path to the root intact                  *)
+(***************************************************************************)
+RECURSIVE ByPathOk(_, _, _)
+ByPathOk(b, n, seen) == /\ n \in DOMAIN b /\ b[n] # Absent /\ n \notin seen
+                        /\ (b[n] = Root \/ ByPathOk(b, b[n], seen \cup {n}))
+Drop(f, n) == [m \in DOMAIN f \ {n} |-> f[m]]
+Revalidate(r) == /\ rootkey' = r /\ phase' = "validate" /\ ti' = 1 /\ sub' = "enter" /\ result' = <<>>
+
+NextOp ==
+    /\ HistOn /\ phase = "done" /\ ops < MaxOps
+    /\ ops' = ops + 1
+    /\ \/ /\ "validate" \in OpKinds
+          /\ \E r \in {"k_root", "k_x"} : Revalidate(r) /\ Logged(E("op:validate", "", r))
+          /\ UNCHANGED <<targets, by, link, shape, gen>>
+       \/ /\ "passive" \in OpKinds /\ Logged(E("op:passive", "", ""))
+          /\ UNCHANGED <<targets, by, link, shape, gen, rootkey, phase, ti, sub, result>>
+       \/ /\ "clear" \in OpKinds /\ targets # <<>> /\ targets' = <<>> /\ Logged(E("op:clear", "", ""))
+          /\ result' = <<>>          \* (verdicts given so far are about what the object was)
+          /\ UNCHANGED <<by, link, shape, gen, rootkey, phase, ti, sub>>
+       \/ /\ "addtarget" \in OpKinds /\ Len(targets) <= MaxTargets
+          /\ \E t \in PresentNames : /\ ByPathOk(by, t, {})
+                                      /\ targets' = Append(targets, t) /\ Logged(E("op:addtarget", t, ""))
+          /\ result' = <<>>
+          /\ UNCHANGED <<by, link, shape, gen, rootkey, phase, ti, sub>>
+       \/ /\ "addel" \in OpKinds
+          /\ \E n \in Names, p \in Names \cup {Root} :
+               LET b2 == (n :> p) @@ by IN
+               /\ (swap # <<>> => n \notin {swap[1], swap[2]})
+               /\ \A i \in 1..Len(targets) : ByPathOk(b2, targets[i], {})
+               /\ by' = b2 /\ link' = Drop(link, n) /\ shape' = Drop(shape, n)
+               /\ gen' = IF n \in PresentNames THEN gen \cup {n} ELSE gen
+               /\ Logged(E("op:addel", n, p))
+          /\ result' = <<>>
+          /\ UNCHANGED <<targets, rootkey, phase, ti, sub>>
+    /\ UNCHANGED <<used, swap, spell, cur, visited, chain, certifier, steps>>
+
+EnvNext == DecideBy \/ DecideLink \/ DecideRoot \/ DecideShape \/ NextOp
 SysNext == PEnter \/ PStep \/ VEnter \/ VBuild \/ VCheck
 Next == EnvNext \/ SysNext
 Spec == Init /\ [][Next]_vars
@@ -242,19 +311,21 @@ FairSpec == Spec /\ WF_vars(Next)
 (***************************************************************************)
 (* Properties                                                              *)
 (***************************************************************************)
-Done == phase \in {"error", "done"}
-Agree == phase = "done" =>
+Done == phase = "error" \/ (phase = "done" /\ (~HistOn \/ ops = MaxOps))
+\* (an empty result with targets present = nothing was validated since the content last changed)
+Judged == phase = "done" /\ (result # <<>> \/ targets = <<>>)
+Agree == Judged =>
             \A i \in 1..Len(targets) :
                /\ targets[i] \in DOMAIN result
                /\ result[targets[i]] = SpecVerdict(Cert, RK, targets[i])
-AgreeJudge == phase = "done" =>
+AgreeJudge == Judged =>
             \A i \in 1..Len(targets) : JudgeTarget(Cert, RK, targets[i], result[targets[i]]) = ""
 SpellNow == IF spell = "refused" THEN "odd" ELSE ""      \* (any refused member / any accepted one)
 LoadIffWellFormed == /\ phase = "error" => ~Loadable(Cert, targets, SpellNow)
                      /\ phase \in {"validate", "done"} => Loadable(Cert, targets, SpellNow)
 \* a verdict, once given, is never changed by anything decided or computed later
-Stable == [][\A x \in DOMAIN result : x \in DOMAIN result' /\ result'[x] = result[x]]_vars
-Bounded == steps <= Len(targets) * (3 * Cardinality(Names) + 3) + 2
+Stable == [][ops' # ops \/ \A x \in DOMAIN result : x \in DOMAIN result' /\ result'[x] = result[x]]_vars
+Bounded == steps <= (MaxOps + 1) * ((MaxTargets + 2) * (3 * Cardinality(Names) + 3) + 2)
 BudgetOk == used <= MaxCorr /\ Shaped <= MaxShape
 Terminates == <>Done
 
@@ -262,6 +333,9 @@ Terminates == <>Done
 NeverValid   == \A x \in DOMAIN result : ~result[x].valid
 NeverInvalidBelowTop == \A x \in DOMAIN result : result[x].valid \/ Cert[result[x].name].by = Root
 NeverError   == phase # "error"
+\* histories: a second validation of an unchanged object that ends valid (the chain was walked twice)
+NeverValidTwice == ~(phase = "done" /\ ops >= 1 /\ \E x \in DOMAIN result : result[x].valid
+                     /\ \E i \in 1..Len(log) : log[i].k = "op:validate")
 \* a child of an element whose value is longer than a key is refused although everything is well signed
 NeverRefusedForShape == ~(\E x \in DOMAIN result : /\ ~result[x].valid /\ used = 0 /\ rootkey = "k_root"
                                                      /\ LinkOf(result[x].name).corr = "ok")
